@@ -134,6 +134,34 @@ fn main() {
             rec.verbose = true;
             rec.cur_stream = "replay".into();
             mon.replay(&case, &mut rec);
+            if rec.violation_count == 0 {
+                // the recorded input alone is judged fine: the violation may depend on the calls made
+                // before it (a history around the case, at one buffer address) - regenerate the
+                // whole case from (stream, idx, seed), then the cases the same worker thread ran
+                // before it
+                let stream = spec::json::extract_str(&text, "stream").unwrap_or("").to_string();
+                let idx = spec::json::extract_u64(&text, "idx");
+                let seed = spec::json::extract_u64(&text, "seed");
+                if let (Some(idx), Some(seed)) = (idx, seed) {
+                    if !stream.is_empty() && stream != "replay" {
+                        println!("the recorded input alone is judged fine; re-running the generated case {}#{} (seed {}) with its call history", stream, idx, seed);
+                        rec.cur_stream = stream.clone();
+                        rec.cur_idx = idx;
+                        mon.run_case(&stream, idx, seed, &mut rec);
+                        if rec.violation_count == 0 {
+                            let threads = spec::json::extract_u64(&text, "threads").unwrap_or(16).max(1);
+                            let first = idx.saturating_sub(threads * 200);
+                            println!("still fine; re-running the up to 200 cases the same worker thread ran before it ({} threads)", threads);
+                            let mut i = idx - ((idx - first) / threads) * threads;
+                            while i <= idx {
+                                rec.cur_idx = i;
+                                mon.run_case(&stream, i, seed, &mut rec);
+                                i += threads;
+                            }
+                        }
+                    }
+                }
+            }
             println!("replay of {} against the current tree: {} judged calls, {} violations", path, rec.evaluations, rec.violation_count);
             for v in &rec.violations {
                 println!("  [{}] {}", v.rule, v.detail);
